@@ -565,10 +565,12 @@ func rulesC18(c *Ctx) {
 			R.Check("R1", fk, "offline selection returned <= exact", c.P.InstrPos(r), ok, "the stored proofs are handed out directly only when they are worth exactly amount + their own fees", why)
 		}
 		// fees included only when asked: the fees value is behind includeFees
-		for _, ci := range Calls(f) {
-			if c.P.Describe(ci).Name == "wallet.feesForProofs" {
-				ok, why := o.Requires(ci, &Cond{Name: "fees requested", Match: func(ft *Fact, _ *Origins) bool { return ft.Kind == "bool" && ft.Pos && ft.A.String() == "P:includeFees" }})
-				R.Check("R1", fk, "fees counted <= fees requested", c.P.InstrPos(ci), ok, "fees are added only when the caller asked for them", why)
+		for _, g := range c.OpFuncs(f) {
+			for _, ci := range Calls(g) {
+				if c.P.Describe(ci).Name == "wallet.feesForProofs" {
+					ok, why := c.RequireAt(ci, &Cond{Name: "fees requested", Match: func(ft *Fact, _ *Origins) bool { return ft.Kind == "bool" && ft.Pos && ft.A.String() == "P:includeFees" }})
+					R.Check("R1", fk, "fees counted <= fees requested", c.P.InstrPos(ci), ok, "fees are added only when the caller asked for them", why)
+				}
 			}
 		}
 		for _, dp := range c.callsOfWalletDB(f, "DeleteProof") {
@@ -717,6 +719,17 @@ func (c *Ctx) ruleWalletFeeFormula(rule string) {
 		for _, r := range Returns(f) {
 			e := o.Of(r.Results[0])
 			ok := e.K == "bin" && e.S == "/" && isConst(e.Args[1], "1000") && strings.Contains(e.Args[0].String(), "P:keyset.InputFeePpk") && strings.Contains(e.Args[0].String(), "#999")
+			if !ok && isConst(e, "0") {
+				// early exit for an empty count: ceil(0 * ppk / 1000) is 0
+				ok, _ = o.Requires(r, &Cond{Name: "count <= 0", Match: func(ft *Fact, _ *Origins) bool {
+					if ft.Kind != "cmp" || !ft.Pos {
+						return false
+					}
+					cnt := "P:" + f.Params[0].Name()
+					return (ft.Op.String() == "<=" && ft.A.String() == cnt && isConst(ft.B, "0")) || (ft.Op.String() == "<" && ft.A.String() == cnt && isConst(ft.B, "1")) ||
+						(ft.Op.String() == "==" && ft.A.String() == cnt && isConst(ft.B, "0"))
+				}})
+			}
 			R.Check(rule, c.P.FuncKey(f), "count fee = ceil(count * ppk / 1000)", c.P.InstrPos(r), ok, "the fee for a number of proofs is one rounding over count times the keyset's ppk", short(e.String(), 160))
 		}
 	}
